@@ -14,8 +14,8 @@ sys.path.insert(0, str(VERIF / "tools" / "gen"))
 import c09_stats as tr_stats  # noqa: E402
 
 ID = "C09"
-PROPS_FILES = ["Gama/Props/C09.lean", "Gama/Props/C09Solvers.lean"]
-LEAN_TARGETS = ["Gama.Props.C09", "Gama.Props.C09Solvers"]
+PROPS_FILES = ["Gama/Props/C09.lean", "Gama/Props/C09Solvers.lean", "Gama/Props/C09Net.lean"]
+LEAN_TARGETS = ["Gama.Props.C09", "Gama.Props.C09Solvers", "Gama.Props.C09Net"]
 DRIVERS = ["drv_stats"]
 RULE = ("generated noisy networks (2D direction/distance fixed and free, small-dof intersections, levelling, "
         "correlated coordinate clusters) x sigma-act x conf-pr in (0,1) x sigma-apr in {0.1..100} x 4 algorithms; "
